@@ -11,6 +11,32 @@ from scipy.ndimage import gaussian_filter
 from quantem.core.utils.utils import generate_batches
 
 
+def _quadratic_peak_offset(p) -> Tuple[float, float]:
+    """
+    Sub-sample offset (row, col) of the maximum of the 2-D quadratic through the 3x3
+    neighbourhood `p` (nested sequence of floats) of a sampled peak, p[1][1] being the peak.
+
+    The cross term matters for a peak that is elongated obliquely to the axes: there the two
+    1-D parabolas through the centre sample do not peak at the 2-D maximum. For a peak without
+    tilt this reduces to the two 1-D parabolas, which are also the fallback when the fitted
+    quadratic has no maximum within two samples of the centre.
+    """
+    gx = 0.5 * (p[2][1] - p[0][1])
+    gy = 0.5 * (p[1][2] - p[1][0])
+    hxx = p[2][1] - 2.0 * p[1][1] + p[0][1]
+    hyy = p[1][2] - 2.0 * p[1][1] + p[1][0]
+    hxy = 0.25 * (p[2][2] - p[2][0] - p[0][2] + p[0][0])
+    det = hxx * hyy - hxy * hxy
+    if hxx < 0 and hyy < 0 and det > 0:
+        dx = (hxy * gy - hyy * gx) / det
+        dy = (hxy * gx - hxx * gy) / det
+        if abs(dx) <= 2.0 and abs(dy) <= 2.0:
+            return dx, dy
+    dx = -gx / hxx if hxx != 0 else 0.0
+    dy = -gy / hyy if hyy != 0 else 0.0
+    return dx, dy
+
+
 def dft_upsample(
     F: NDArray,
     up: int,
@@ -119,14 +145,8 @@ def cross_correlation_shift(
     x_inds = xp.mod(x0 + xp.arange(-1, 2), cc.shape[0]).astype(int)
     y_inds = xp.mod(y0 + xp.arange(-1, 2), cc.shape[1]).astype(int)
 
-    vx = cc_real[x_inds, y0]
-    vy = cc_real[x0, y_inds]
-
-    def parabolic_peak(v):
-        return (v[2] - v[0]) / (4 * v[1] - 2 * v[2] - 2 * v[0])
-
-    dx = parabolic_peak(vx)
-    dy = parabolic_peak(vy)
+    # 2-D quadratic (with cross term) through the 3x3 neighbourhood of the peak
+    dx, dy = _quadratic_peak_offset(cc_real[xp.ix_(x_inds, y_inds)].tolist())
 
     x0 = (x0 + dx) % cc.shape[0]
     y0 = (y0 + dy) % cc.shape[1]
@@ -143,8 +163,7 @@ def cross_correlation_shift(
             lx, ly = peak
             icc = local[lx - 1 : lx + 2, ly - 1 : ly + 2]
             if icc.shape == (3, 3):
-                dxf = parabolic_peak(icc[:, 1])
-                dyf = parabolic_peak(icc[1, :])
+                dxf, dyf = _quadratic_peak_offset(icc.tolist())
             else:
                 raise ValueError("Subarray too close to edge")
         except (IndexError, ValueError):
@@ -203,7 +222,6 @@ def align_images_fourier_torch(
     G1, G2: torch tensors representing FTs of images (complex)
     Returns: xy_shift (tensor length 2)
     """
-    device = G1.device
     cc = G1 * G2.conj()
     # the mean of the images only adds a constant to the correlation; in single precision its
     # (huge) zero-frequency term would swamp the peak in the DFT-upsampled patch
@@ -220,21 +238,11 @@ def align_images_fourier_torch(
     x_inds = [((x0 + dx) % M) for dx in (-1, 0, 1)]
     y_inds = [((y0 + dy) % N) for dy in (-1, 0, 1)]
 
-    vx = cc_real[x_inds, y0]
-    vy = cc_real[x0, y_inds]
-
-    # parabolic half-pixel refine
-    # dx = (vx[2] - vx[0]) / (4*vx[1] - 2*vx[2] - 2*vx[0])
-    denom_x = 4.0 * vx[1] - 2.0 * vx[2] - 2.0 * vx[0]
-    denom_y = 4.0 * vy[1] - 2.0 * vy[2] - 2.0 * vy[0]
-    dx = (vx[2] - vx[0]) / denom_x if denom_x != 0 else torch.tensor(0.0, device=device)
-    dy = (vy[2] - vy[0]) / denom_y if denom_y != 0 else torch.tensor(0.0, device=device)
+    # quadratic half-pixel refine (2-D, with cross term) on the 3x3 neighbourhood of the peak
+    dx, dy = _quadratic_peak_offset(cc_real[x_inds][:, y_inds].tolist())
 
     # round to nearest half-pixel
-    x0 = torch.round((x0 + dx) * 2.0) / 2.0
-    y0 = torch.round((y0 + dy) * 2.0) / 2.0
-
-    xy_shift = torch.tensor([x0, y0])
+    xy_shift = torch.round(torch.tensor([x0 + dx, y0 + dy]) * 2.0) / 2.0
 
     if upsample_factor > 2:
         xy_shift = upsampled_correlation_torch(cc, upsample_factor, xy_shift)
@@ -259,7 +267,9 @@ def upsampled_correlation_torch(
     assert upsampleFactor > 2
 
     xyShift = torch.round(xyShift * float(upsampleFactor)) / float(upsampleFactor)
-    globalShift = torch.floor(torch.ceil(torch.tensor(upsampleFactor * 1.5)) / 2.0)
+    # the patch spans +-1.5 pixels around xyShift (same as the numpy dft_upsample): the half-pixel
+    # estimate of an obliquely elongated peak can be off by more than 0.75 pixel
+    globalShift = torch.ceil(torch.tensor(upsampleFactor * 1.5))
     upsampleCenter = globalShift - (upsampleFactor * xyShift)
 
     conj_input = imageCorr.conj()
@@ -284,12 +294,8 @@ def upsampled_correlation_torch(
         patch = imageCorrUpsample.real[r - 1 : r + 2, c - 1 : c + 2]
         # if patch is incomplete (near edge) this will raise / have wrong shape -> except
         if patch.shape == (3, 3):
-            icc = patch
-            # dx corresponds to row direction (vertical axis) as in original code:
-            dx = (icc[2, 1] - icc[0, 1]) / (4.0 * icc[1, 1] - 2.0 * icc[2, 1] - 2.0 * icc[0, 1])
-            dy = (icc[1, 2] - icc[1, 0]) / (4.0 * icc[1, 1] - 2.0 * icc[1, 2] - 2.0 * icc[1, 0])
-            dx = dx.item()
-            dy = dy.item()
+            # dx corresponds to row direction (vertical axis) as in original code
+            dx, dy = _quadratic_peak_offset(patch.tolist())
         else:
             dx, dy = 0.0, 0.0
     except Exception:
@@ -321,7 +327,7 @@ def dftUpsample_torch(
     device = imageCorr.device
     M, N = imageCorr.shape
     pixelRadius = 1.5
-    numRow = int(math.ceil(pixelRadius * upsampleFactor))
+    numRow = 2 * int(math.ceil(pixelRadius * upsampleFactor)) + 1
     numCol = numRow
 
     # prepare the vectors exactly like the numpy version
